@@ -23,7 +23,8 @@
 (*     Transcript!Script (labels, lengths, order), the weight transcript has the released label.    *)
 (***************************************************************************************************)
 EXTENDS TraceBase, BigField
-CONSTANTS Strict, CheckArith, CheckLayout
+CONSTANTS Strict, CheckArith, CheckLayout,
+          WeightsOnly    \* long batches: of the final check only the weights (read off the scalars on the B points) are examined
 
 T == INSTANCE Transcript
 RECURSIVE Pw2(_)
@@ -81,7 +82,18 @@ MerlinEv == /\ pc = "run" /\ l <= NRec
 MaxNM == LET RECURSIVE Mx(_) Mx(i) == IF i = 0 THEN 0 ELSE LET a == Mem(i).n * Mem(i).m  b == Mx(i-1) IN IF a > b THEN a ELSE b IN Mx(NP)
 ZeroSeq(n) == [i \in 1..n |-> Zero21]
 
+\* weight provenance: a non-zero reduction of an output of the weight generator
+WeightFills == UNION { {rng[rid].fills[f].wide : f \in 1..Len(rng[rid].fills)} : rid \in {x \in DOMAIN rng : rng[x].tid = wtid} }
+RECURSIVE ObsFrom(_,_,_)
+ObsFrom(o, tk, i) == IF i > Len(o) THEN Zero21 ELSE IF o[i][1] = tk THEN o[i][2] ELSE ObsFrom(o, tk, i + 1)
+\* the weights of a (long) batch without the per-member arithmetic: w_i, read off the scalar on B_i, is non-zero, is the
+\* reduction of an output of the weight generator (built after every member contributed: MerlinEv), and no two members share one
+WeightsOk == LET RF == {Reduce(f) : f \in WeightFills \ {<<>>}}
+                 W(i) == FSub(Zero21, ObsFrom(Rec[l].obs, Mem(i).tok.B, 1)) IN
+             /\ \A i \in 1..NP : W(i) # Zero21 /\ W(i) \in RF
+             /\ Cardinality({W(i) : i \in 1..NP}) = NP
 VMSMStart == /\ Is("VMSM") /\ pc = "run"
+             /\ (WeightsOnly /\ Rec[l].arith) => WeightsOk
              /\ IF CheckArith
                 THEN /\ pc' = "red" /\ mi' = 1 /\ wts' = <<>> /\ allp' = <<>> /\ UNCHANGED l
                      /\ acc' = [Gi |-> ZeroSeq(MaxNM), Hi |-> ZeroSeq(MaxNM), H |-> Zero21, G |-> ZeroSeq(Mem(1).t)]
@@ -124,8 +136,6 @@ MaskOk(mb) ==
             mb.d1[kk] = FAdd(mb.nref.eta[kk], FAdd(FMul(cx.e, mb.nref.d[kk]),
                           FMul(sc.e2, FAdd(FAdd(mb.nref.alpha[kk], SumLRn(mb.nref, kk, 1)), FMul(mb.mask[kk], FMul(sc.z2, sc.ynm1))))))
 \* the scalar the final MSM carried on the point with token T (summed over equal points; zero if the point is absent)
-RECURSIVE ObsFrom(_,_,_)
-ObsFrom(o, tk, i) == IF i > Len(o) THEN Zero21 ELSE IF o[i][1] = tk THEN o[i][2] ELSE ObsFrom(o, tk, i + 1)
 Obs(tk) == ObsFrom(Rec[l].obs, tk, 1)
 Scal == /\ pc = "scal"
         /\ sc' = S!Scal(tb, dd, cx, Rsp(mi), cx.nm)
@@ -138,8 +148,6 @@ RecStep == /\ pc = "rec"
            /\ IF mi < NP THEN mi' = mi + 1 /\ pc' = "red" /\ UNCHANGED l
               ELSE mi' = mi /\ pc' = "run" /\ l' = l + 1
            /\ UNCHANGED <<scripts, abs, chal, rng, r, cfg, wtid, cx, tb, dd, sc, acc, wts, allp>>
-\* weight provenance: a non-zero reduction of an output of the weight generator
-WeightFills == UNION { {rng[rid].fills[f].wide : f \in 1..Len(rng[rid].fills)} : rid \in {x \in DOMAIN rng : rng[x].tid = wtid} }
 Acc == /\ pc = "acc"
        /\ LET w == wts[mi]  mb == Mem(mi)  rsp == Rsp(mi) IN
           /\ w # Zero21
